@@ -1,7 +1,15 @@
 package checks
 
 import (
+	"fmt"
+	"math/rand"
+	"net"
+	"path/filepath"
+	"strings"
 	"testing"
+	"time"
+
+	"verifharness/snref"
 
 	"verifharness/monitors"
 	"verifharness/rt"
@@ -18,12 +26,101 @@ func TestC07(t *testing.T) {
 	r.Finish(connectRule+" Oracle C07: CONNACK(accepted) only after a broker CONNACK(0) in the session; before it only CONNECTs (and, auth off, QoS -1 short/predefined publishes) reach the broker; any other client packet before it ends the session.", nil)
 }
 
+// wlAuthProcess: the bisquitt binary itself (flag parsing, ListenAndServe, real sockets): which
+// credentials reach a fake TCP broker for the combinations of --auth, --mqtt-user/--mqtt-password
+// and a client that does or does not send AUTH.
+var wlAuthProcess = Workload{
+	Name: "bisquitt-process",
+	N:    func(r *rt.Run) int { return 12 },
+	Run: func(t *testing.T, c *rt.Case, i int, rng *rand.Rand) *GWRun {
+		auth := i%2 == 1
+		cred := (i / 2) % 3 // 0 none, 1 user, 2 user+password
+		sendAuth := i/6 == 1
+		g := &GWRun{NSess: 1, Cfg: world.GWConfig{Auth: auth}}
+		g.Desc = fmt.Sprintf("bisquitt process auth=%v gateway-credentials=%d client-sends-AUTH=%v", auth, cred, sendAuth)
+		bins, err := cliBins()
+		if err != nil {
+			return nil
+		}
+		br, err := newFakeBroker()
+		if err != nil {
+			return nil
+		}
+		defer br.close()
+		port, err := freeUDPPort()
+		if err != nil {
+			return nil
+		}
+		args := []string{"--host", "127.0.0.1", "--port", fmt.Sprint(port), "--mqtt-host", "127.0.0.1", "--mqtt-port", fmt.Sprint(br.port())}
+		if auth {
+			args = append(args, "--auth", "--insecure")
+		}
+		if cred >= 1 {
+			args = append(args, "--mqtt-user", "gwuser")
+			g.Cfg.User = strp("gwuser")
+		}
+		if cred == 2 {
+			args = append(args, "--mqtt-password", "gwpass")
+			g.Cfg.Password = []byte("gwpass")
+		}
+		g.Script = append(g.Script, "bisquitt "+strings.Join(args, " "))
+		tool, err := startTool(filepath.Join(bins, "bisquitt"), args, cleanEnv())
+		if err != nil {
+			return nil
+		}
+		defer tool.stop()
+		up := false
+		for k := 0; k < 300 && !up; k++ {
+			if _, ex := tool.wait(0); ex {
+				return nil
+			}
+			up = udpPortBound(port)
+			time.Sleep(10 * time.Millisecond)
+		}
+		if !up {
+			return nil
+		}
+		conn, err := net.Dial("udp", fmt.Sprintf("127.0.0.1:%d", port))
+		if err != nil {
+			return nil
+		}
+		defer conn.Close()
+		// the trace is rebuilt from what the two real sockets carried
+		tr := world.NewTrace()
+		send := func(p *snref.Pkt) {
+			b := p.Encode()
+			tr.Add(0, world.SNIn, b, "")
+			conn.Write(b)
+			g.Script = append(g.Script, "client sends "+p.String())
+		}
+		send(snref.Connect("cl", 60, false, true))
+		if sendAuth {
+			send(snref.AuthPlain("alice", []byte("s3cret")))
+		}
+		buf := make([]byte, 2048)
+		conn.SetReadDeadline(time.Now().Add(1500 * time.Millisecond))
+		if n, err := conn.Read(buf); err == nil {
+			tr.Add(0, world.SNOut, append([]byte(nil), buf[:n]...), "")
+		}
+		time.Sleep(100 * time.Millisecond)
+		br.mu.Lock()
+		for _, p := range br.conn {
+			tr.Add(0, world.MQOut, p.Raw, "")
+		}
+		br.mu.Unlock()
+		g.Evs = tr.Events()
+		// order: the MQTT CONNECT was caused by the datagrams before it; put MQOut before the reply
+		g.Items, g.RestOut = g.Session(0)
+		return g
+	},
+}
+
 func TestC08(t *testing.T) {
 	r := rt.Start(t, "C08")
-	runWorkloads(t, r, []Workload{wlConnectExhaustive, wlConnectRandom}, func(g *GWRun) ([]monitors.V, int) {
+	runWorkloads(t, r, []Workload{wlConnectExhaustive, wlConnectRandom, wlAuthProcess}, func(g *GWRun) ([]monitors.V, int) {
 		return monitors.C08(g.Items, g.Cfg.Auth, g.Cfg.User, g.Cfg.Password)
 	})
-	r.Finish(connectRule+" Oracle C08: per connect exchange, credentials on every MQTT CONNECT (from the latest well-formed PLAIN AUTH when auth is on, the gateway's own otherwise), unknown AUTH method answered 'not supported' with no CONNECT afterwards.", nil)
+	r.Finish(connectRule+" Workload bisquitt-process: the built bisquitt binary on loopback with --auth on/off x no / user / user+password broker credentials x a client that sends CONNECT with or without AUTH(alice): the CONNECT packets a fake TCP broker receives are judged by the same oracle (plumbing of the options through main and ListenAndServe). Oracle C08: per connect exchange, credentials on every MQTT CONNECT (from the latest well-formed PLAIN AUTH when auth is on, the gateway's own otherwise), unknown AUTH method answered 'not supported' with no CONNECT afterwards.", nil)
 }
 
 func TestC09(t *testing.T) {
